@@ -106,35 +106,36 @@ def pbits(p):
     return {k: bits(np.asarray(v, dtype=np.float64).reshape(np.asarray(v).shape)) for k, v in p.items()}
 
 
-def make_positive(n, h, am):
+def make_positive(n, h, am, gpu=False):
+    """`gpu`: the (falsy) object handed as `gpu=` to the state and RBM constructors (default: the singleton False)"""
     if _via_module(am):
-        st = PositiveWaveFunction(n, gpu=False, module=BinaryRBM(n, h, gpu=False))
+        st = PositiveWaveFunction(n, gpu=gpu, module=BinaryRBM(n, h, gpu=gpu))
         set_rbm(st.rbm_am, am, inplace=True)
         return st
-    st = PositiveWaveFunction(n, h, gpu=False)
+    st = PositiveWaveFunction(n, h, gpu=gpu)
     set_rbm(st.rbm_am, am)
     return st
 
 
-def make_complex(n, h, am, ph, unitary_dict=None):
+def make_complex(n, h, am, ph, unitary_dict=None, gpu=False):
     if _via_module(am):
-        st = ComplexWaveFunction(n, unitary_dict=unitary_dict, gpu=False, module=BinaryRBM(n, h, gpu=False))
+        st = ComplexWaveFunction(n, unitary_dict=unitary_dict, gpu=gpu, module=BinaryRBM(n, h, gpu=gpu))
         set_rbm(st.rbm_am, am, inplace=True)
         set_rbm(st.rbm_ph, ph, inplace=True)  # written last: would clobber the amplitude network if the two were aliased
         return st
-    st = ComplexWaveFunction(n, h, gpu=False, unitary_dict=unitary_dict)
+    st = ComplexWaveFunction(n, h, gpu=gpu, unitary_dict=unitary_dict)
     set_rbm(st.rbm_am, am)
     set_rbm(st.rbm_ph, ph)
     return st
 
 
-def make_density(n, h, a, am, ph, unitary_dict=None):
+def make_density(n, h, a, am, ph, unitary_dict=None, gpu=False):
     if _via_module(am):
-        st = DensityMatrix(n, unitary_dict=unitary_dict, gpu=False, module=PurificationRBM(n, h, a, gpu=False))
+        st = DensityMatrix(n, unitary_dict=unitary_dict, gpu=gpu, module=PurificationRBM(n, h, a, gpu=gpu))
         set_prbm(st.rbm_am, am, inplace=True)
         set_prbm(st.rbm_ph, ph, inplace=True)
         return st
-    st = DensityMatrix(n, h, a, gpu=False, unitary_dict=unitary_dict)
+    st = DensityMatrix(n, h, a, gpu=gpu, unitary_dict=unitary_dict)
     set_prbm(st.rbm_am, am)
     set_prbm(st.rbm_ph, ph)
     return st
@@ -149,3 +150,72 @@ def all_bases(n, alphabet="XYZ"):
     import itertools
 
     return ["".join(t) for t in itertools.product(alphabet, repeat=n)]
+
+# ------------------------------------------------------------------ boolean options as the OBJECTS callers pass (hardening round 4)
+# An argument documented as `bool` (expand, overwrite, absolute, periodic_bcs, gpu) is in practice also given as the int 1 / 0, as a
+# numpy bool (a flag read from a numpy array / config, the result of a numpy comparison), as a 0-dim numpy bool array or as a 0-dim
+# torch.bool tensor.  Code that tests `if flag:` treats them all alike; code that tests `flag is True` does not.  Every boolean option of
+# a call form is therefore generated through these helpers, in keyword and in positional position.  Model side: QV.Model.PyFlag
+# (descriptor -> DriverLib.Flag.parseFlag), theorems C02_expand_flag, C05_overwrite_flag, C08_flag_absolute / C08_flag_periodic.
+FLAG_FORMS = ["py", "int", "np_bool", "np_cmp", "np_0d", "torch_0d"]
+
+
+def flag_value(desc):
+    """the Python object denoted by a flag descriptor {"form": one of FLAG_FORMS, "value": bool} (a plain bool denotes itself)"""
+    if isinstance(desc, bool):
+        return desc
+    b, form = bool(desc["value"]), desc["form"]
+    if form == "py":
+        return b
+    if form == "int":
+        return 1 if b else 0
+    if form == "np_bool":
+        return np.bool_(b)
+    if form == "np_cmp":
+        return np.float64(1.0 if b else 0.0) > 0.5          # what a numpy comparison returns (numpy.bool_)
+    if form == "np_0d":
+        return np.array(b)
+    if form == "torch_0d":
+        return torch.tensor(b)
+    raise ValueError(f"unknown flag form {form}")
+
+
+def flag_form(rng, plain=0.2):
+    """how ONE boolean option of a call is handed over: {"form": FLAG_FORMS entry, "pos": positionally?}; the Python singleton with
+    probability `plain`, else one of the five other forms"""
+    return {"form": "py" if rng.random() < plain else rng.choice(FLAG_FORMS[1:]), "pos": rng.random() < 0.35}
+
+
+def flag_desc(ff, b):
+    """descriptor of the truth value `b` in the form `ff` (None / missing: the Python singleton, keyword position — cases stored
+    before this round replay exactly as they were)"""
+    return {"form": (ff or {}).get("form", "py"), "value": bool(b)}
+
+
+def flag_pos(ff):
+    return bool((ff or {}).get("pos", False))
+
+
+def flag_forms(rng, b, plain=0.2):
+    """(object to pass, JSON-able descriptor incl. "pos") for the boolean option value `b`"""
+    ff = flag_form(rng, plain)
+    d = flag_desc(ff, b)
+    return flag_value(d), dict(d, pos=ff["pos"])
+
+
+class Flags:
+    """deterministic stream of flag forms for ONE case, seeded by the case's `fseed` (so that a replay hands over the same objects);
+    `fseed=None`: Python singletons in keyword position.  `fl(b)` -> (object, descriptor with "pos"); every descriptor is kept in `used`."""
+
+    def __init__(self, fseed):
+        import random
+        self.rng = None if fseed is None else random.Random(fseed)
+        self.used = []
+
+    def __call__(self, b):
+        if self.rng is None:
+            v, d = bool(b), {"form": "py", "value": bool(b), "pos": False}
+        else:
+            v, d = flag_forms(self.rng, b)
+        self.used.append(d)
+        return v, d
